@@ -1999,6 +1999,28 @@ def arrow_is_convex(c, a, st, v):
              f"result ⇒ {show_formula(goal)}", not bad, st)
 
 
+@spec("lax::var::operators::<")
+def var_operator(c, a, st, v):
+    """`x <op> y` on Vars adds ONE hyperedge labelled with the operator, whose sources are a fresh use of x then a
+    fresh use of y — the operands in the order written — and whose single target is the fresh definition of the
+    result (C19: 'a term means the expression written')."""
+    ops = [x for x in a.values() if isinstance(x, VRec) and x.ty.endswith("var::Var")]
+    if not ops or not isinstance(ops[0].f.get("state"), VMutRef):
+        return
+    post = c.I.read_place(st, ops[0].f["state"].place)
+    h = hyp(post)
+    nodes = normalise(st, h.f["nodes"].t)
+    parts = list(nodes[1:]) if nodes[0] == "concat" else [nodes]
+    n_new = len(ops) + 1
+    added = parts[-n_new:] if len(parts) > n_new else []
+    base = mk_concat(parts[:-n_new]) if added else None
+    want = [("single", ("user", o.f["label"].key)) if isinstance(o.f["label"], VUser) else None for o in ops]
+    ok = bool(added) and all(w is not None and added[i] in (w, ("single", w[1][1])) for i, w in enumerate(want))
+    c.ob("ENS", "operator: one fresh use per operand, in the order written",
+         f"nodes' ≡ nodes ++ [label of operand 1, .., label of the result]: got {show_term(nodes)[:260]}", ok, st,
+         actual=nodes)
+
+
 @spec("lax::var::forget::ForgetMonogamous as lax::functor::traits::Functor<O, A, O, A>>::map_operation")
 def forget_monogamous_map_operation(c, a, st, v):
     """forget_monogamous: the same replacement, but only for 1 → 1 variable hyperedges."""
